@@ -1,6 +1,7 @@
 package verifsim
 
 import (
+	"os"
 	"time"
 )
 
@@ -35,6 +36,31 @@ type clockState struct {
 }
 
 var clk [MaxTasks + 1]clockState
+
+// Clock readings and random draws made outside any operation - package-level
+// variables initialised when the process starts, a first-use cache filled
+// before the harness installed a stream - belong to the PROCESS. Their stream
+// derives from VERIF_PROCSEED, which the harness sets per child process, so
+// that "another process" is a decision of the simulation and can be replayed.
+var ProcSeed = initProcSeed()
+
+func initProcSeed() uint64 {
+	var v uint64
+	for _, c := range os.Getenv("VERIF_PROCSEED") {
+		if c < '0' || c > '9' {
+			break
+		}
+		v = v*10 + uint64(c-'0')
+	}
+	for i := range clk {
+		k := &clk[i]
+		k.cfg = ClockCfg{Seed: v}
+		k.rng = Mix(v, 21)
+		k.rnd = Mix(v, 22)
+		k.now = simEpoch + int64(Mix(v, 23)%uint64(365*24*time.Hour))
+	}
+	return v
+}
 
 // a fixed, arbitrary epoch: 2026-01-01T00:00:00Z
 const simEpoch = int64(1767225600) * int64(time.Second)
